@@ -8,7 +8,9 @@ CLAIM = ("(TABLE/DOM) the header reader accepts exactly the version bytes {2,3},
          "input without the magic to V1; BinaryVersion's ordering is the ordering of its u8 values; (DOM) in Ontology::from_bytes, Gene::try_from and "
          "Disease::from_bytes every success value is dominated by the true edge of an equality between the consumed offset and the length of the input "
          "(for the records additionally the declared total length); (DISPATCH) the ORPHA section is read for exactly {V3}, the release version for exactly "
-         "{V2,V3}, and V1 term records are routed to the v1 term layout.")
+         "{V2,V3}, and V1 term records are routed to the v1 term layout; (LAYOUT) the v2/v3 term decoder reads the fields where HpoTermInternal::as_bytes "
+         "writes them, validates the input length against that record size, decodes no field conditionally on another field's value; the v1 term decoder's "
+         "constant length validation equals the end of the fixed-offset part it reads.")
 NOT_DECIDED = "behaviour at every truncation offset inside a section (index panics are data dependent) and that each layout decodes to exactly the described ontology."
 
 DECODERS = {
@@ -249,3 +251,9 @@ def run(ck, prog, ctx):
     for db in prog.find(r"^parser::binary::term::from_bytes_v2$"):
         n_l += layout.check_field_independence(ck, "LAYOUT", prog, db, r"HpoTermInternal", db.name)
     ck.floor("LAYOUT", "optional field stores in the term decoder", n_l, 2)
+    for db in prog.find(r"^parser::binary::term::from_bytes_v1$"):
+        layout.check_fixed_part_validation(ck, "LAYOUT", prog, db, "term-v1")
+    for db in prog.find(r"^parser::binary::term::from_bytes_v2$"):
+        wb = prog.one(r"^term::internal::HpoTermInternal::as_bytes$")
+        if wb is not None:
+            layout.check_record_layout(ck, "LAYOUT", prog, wb, db, "HpoTermInternal", "term")
